@@ -1007,6 +1007,17 @@ func (g *gstate) fieldExtras(fi *fileInfo, f *descriptorpb.FieldDescriptorProto,
 		}
 		f.Options.Jstype = descriptorpb.FieldOptions_JS_STRING.Enum()
 	}
+	if !isExt && !isMap && g.rng.Chance(0.1) {
+		// a repeated standard option (only consulted when the field is itself used as an option, so any value is legal here)
+		if f.Options == nil {
+			f.Options = &descriptorpb.FieldOptions{}
+		}
+		all := []descriptorpb.FieldOptions_OptionTargetType{descriptorpb.FieldOptions_TARGET_TYPE_FILE, descriptorpb.FieldOptions_TARGET_TYPE_FIELD,
+			descriptorpb.FieldOptions_TARGET_TYPE_MESSAGE, descriptorpb.FieldOptions_TARGET_TYPE_ENUM, descriptorpb.FieldOptions_TARGET_TYPE_ONEOF, descriptorpb.FieldOptions_TARGET_TYPE_METHOD}
+		vlib.Shuffle(g.rng, all)
+		f.Options.Targets = append(f.Options.Targets, all[:g.rng.Range(1, 3)]...)
+		g.tag("field:targets")
+	}
 	if !isExt && !isMap && g.rng.Chance(0.06) {
 		f.JsonName = proto.String("j_" + f.GetName())
 		g.tag("field:json_name")
